@@ -411,6 +411,101 @@ class _DeMorgan(ast.NodeTransformer):
         return node
 
 
+class _SwapStmts(ast.NodeTransformer):
+    """Adjacent simple assignments to plain names that do not depend on each other (no calls, disjoint reads / writes) are
+    exchanged, pairwise, in every block."""
+
+    def __init__(self):
+        self.n = 0
+
+    @staticmethod
+    def _rw(s):
+        if not isinstance(s, (ast.Assign, ast.AugAssign)):
+            return None
+        tg = s.targets if isinstance(s, ast.Assign) else [s.target]
+        if not all(isinstance(t, ast.Name) for t in tg):
+            return None
+        if any(isinstance(x, (ast.Call, ast.Yield, ast.Await, ast.NamedExpr, ast.Subscript, ast.Attribute)) for x in ast.walk(s.value)):
+            return None
+        w = {t.id for t in tg}
+        r = {x.id for x in ast.walk(s.value) if isinstance(x, ast.Name)} | (w if isinstance(s, ast.AugAssign) else set())
+        return r, w
+
+    def generic_visit(self, node):
+        super().generic_visit(node)
+        for fld in ("body", "orelse", "finalbody"):
+            b = getattr(node, fld, None)
+            if isinstance(b, list) and len(b) >= 2 and isinstance(b[0], ast.stmt):
+                i = 0
+                while i + 1 < len(b):
+                    a, c = self._rw(b[i]), self._rw(b[i + 1])
+                    if a and c and not (a[1] & (c[0] | c[1])) and not (c[1] & a[0]):
+                        b[i], b[i + 1] = b[i + 1], b[i]
+                        self.n += 1
+                        i += 2
+                    else:
+                        i += 1
+        return node
+
+
+class _Temp(ast.NodeTransformer):
+    """`x = (A) op B` with a compound left operand becomes `_t = A` followed by `x = _t op B` (assignments to plain names
+    and attribute stores, outside comprehensions and lambdas)."""
+
+    def __init__(self):
+        self.n = 0
+
+    def generic_visit(self, node):
+        super().generic_visit(node)
+        for fld in ("body", "orelse", "finalbody"):
+            b = getattr(node, fld, None)
+            if isinstance(b, list) and b and isinstance(b[0], ast.stmt):
+                out = []
+                for st in b:
+                    if isinstance(st, ast.Assign) and len(st.targets) == 1 and isinstance(st.targets[0], (ast.Name, ast.Attribute)) \
+                            and isinstance(st.value, ast.BinOp) and isinstance(st.value.left, (ast.BinOp, ast.Call)) \
+                            and not any(isinstance(x, (ast.Yield, ast.Await, ast.NamedExpr, ast.Lambda)) for x in ast.walk(st.value)):
+                        self.n += 1
+                        name = f"_t{self.n}"
+                        out.append(ast.copy_location(ast.Assign(targets=[ast.Name(id=name, ctx=ast.Store())], value=st.value.left), st))
+                        st.value.left = ast.Name(id=name, ctx=ast.Load())
+                    out.append(st)
+                setattr(node, fld, out)
+        return node
+
+
+class _Unroll(ast.NodeTransformer):
+    """`xs = [e for v in it if c]` (one generator, plain-name target on both sides) -> `xs = []` + explicit loop with append."""
+
+    def __init__(self):
+        self.n = 0
+
+    def generic_visit(self, node):
+        super().generic_visit(node)
+        for fld in ("body", "orelse", "finalbody"):
+            b = getattr(node, fld, None)
+            if isinstance(b, list) and b and isinstance(b[0], ast.stmt):
+                out = []
+                for st in b:
+                    if isinstance(st, ast.Assign) and len(st.targets) == 1 and isinstance(st.targets[0], ast.Name) and isinstance(st.value, ast.ListComp) \
+                            and len(st.value.generators) == 1 and not st.value.generators[0].is_async \
+                            and st.targets[0].id not in {x.id for x in ast.walk(st.value) if isinstance(x, ast.Name)}:
+                        g = st.value.generators[0]
+                        self.n += 1
+                        name = st.targets[0].id
+                        app = ast.Expr(value=ast.Call(func=ast.Attribute(value=ast.Name(id=name, ctx=ast.Load()), attr="append", ctx=ast.Load()),
+                                                      args=[st.value.elt], keywords=[]))
+                        body = [app]
+                        for c in reversed(g.ifs):
+                            body = [ast.If(test=c, body=body, orelse=[])]
+                        out.append(ast.copy_location(ast.Assign(targets=[ast.Name(id=name, ctx=ast.Store())], value=ast.List(elts=[], ctx=ast.Load())), st))
+                        out.append(ast.copy_location(ast.For(target=g.target, iter=g.iter, body=body, orelse=[]), st))
+                    else:
+                        out.append(st)
+                setattr(node, fld, out)
+        return node
+
+
 class _SwapCmp(ast.NodeTransformer):
     """`a < b` -> `b > a`, `a == b` -> `b == a` ... for single comparisons (not `in` / `is`)."""
     _MIRROR = {ast.Lt: ast.Gt, ast.Gt: ast.Lt, ast.LtE: ast.GtE, ast.GtE: ast.LtE, ast.Eq: ast.Eq, ast.NotEq: ast.NotEq}
@@ -448,6 +543,26 @@ def rewrite_function(program: Program, qualname: str, kind: str) -> Program | No
         h = _Hoist()
         h.generic_visit(target)
         if h.n == 0:
+            return None
+    elif kind == "swapstmt":
+        w = _SwapStmts()
+        w.visit(target)
+        if w.n == 0:
+            return None
+        # positions must follow the new order (the analyses compare line numbers inside a block)
+        for i_, n_ in enumerate(ast.walk(target)):
+            pass
+        src_ = ast.unparse(tree)
+        return program.with_source(fi.file, src_)
+    elif kind == "temp":
+        w = _Temp()
+        w.visit(target)
+        if w.n == 0:
+            return None
+    elif kind == "unroll":
+        w = _Unroll()
+        w.visit(target)
+        if w.n == 0:
             return None
     elif kind == "swapcmp":
         w = _SwapCmp()
@@ -603,7 +718,7 @@ def run(ctx: Ctx) -> None:
     targets += sorted(q for q in ctx.analysed_functions if q not in targets and q in ctx.p.functions)     # everything the check looked at
     jobs.append(("rewrite", prop, "<whole tree>", "reformat"))
     for q in targets:
-        for kind in ("rename", "aug", "pass", "hoist", "flip", "demorgan", "swapcmp"):
+        for kind in ("rename", "aug", "pass", "hoist", "flip", "demorgan", "swapcmp", "swapstmt", "temp", "unroll"):
             jobs.append(("rewrite", prop, q, kind))
     _BASE = ctx.p
     nproc = max(1, min(16, os.cpu_count() or 1, len(jobs)))
